@@ -212,7 +212,9 @@ namespace ratio
 #endif
                         found = true;
                     }
-                    plcs[{&atm0, &atm1}].emplace_back(get_solver().get_sat_core().new_conj({get_solver().get_ov_theory().allows(a0_tau_itm->ev, *v0), !get_solver().get_ov_theory().allows(a1_tau_itm->ev, *v0)}), static_cast<const item *>(v0));
+                    // either of the atoms can leave the common state variable (placing the first one on it and forbidding it to the second one covers all the cases only when the two atoms range over the same state variables)..
+                    plcs[{&atm0, &atm1}].emplace_back(!get_solver().get_ov_theory().allows(a0_tau_itm->ev, *v0), static_cast<const item *>(v0));
+                    plcs[{&atm0, &atm1}].emplace_back(!get_solver().get_ov_theory().allows(a1_tau_itm->ev, *v0), static_cast<const item *>(v0));
                 }
         }
         else if (a0_tau_itm)
